@@ -21,9 +21,15 @@ fn tier_of(s: &str) -> Tier {
 
 fn dispatch<P: Property>(p: &P, mode: &str, arg: &str) -> i32 {
     match mode {
-        "run" => check(p, tier_of(arg)),
+        "run" => crate::core::runner::supervise(p, tier_of(arg)),
+        "exec" => check(p, tier_of(arg)),
         "digest" => digest_only(p, tier_of(arg)),
-        "replay" => replay_case(p, std::path::Path::new(arg)),
+        "replay" => crate::core::runner::replay_supervised(p, std::path::Path::new(arg)),
+        "replay-inner" => replay_case(p, std::path::Path::new(arg)),
+        "case" => {
+            let idx = std::env::args().nth(4).and_then(|s| s.parse().ok()).unwrap_or(0);
+            crate::core::runner::one_case(p, arg, idx)
+        }
         _ => {
             eprintln!("harness error: unknown mode {}", mode);
             2
@@ -40,6 +46,7 @@ fn main() {
     }
     let (mode, id, arg) = (args[1].as_str(), args[2].as_str(), args[3].as_str());
     let code = match id {
+        "C12" => dispatch(&props::c12::C12, mode, arg),
         "C16" => dispatch(&props::c16::C16, mode, arg),
         _ => {
             eprintln!("harness error: property {} has no simulation check (see MANIFEST.not_applicable)", id);
